@@ -56,6 +56,10 @@ def transfers(config):
                 ["transfer", wl, "T", ["A01", "B01"], "P", ["A01", "B01"], [1000, 800], {}],
                 ["transfer", wl, "T", ["A02", "B02", "C02"], "Q", ["A01", "B01", "C01"], [951, 950, 1902], {}],
                 ["transfer", wl, "P", ["A02", "B02"], "Q", ["A02", "A02"], [1000, 999.5], {"partition_by": "destination"}],
+                # five and more partitions (integer volumes a few microlitres below a multiple of max_volume)
+                ["transfer", wl, "T", ["A02"], "P", ["B03"], [4747], {}],
+                ["transfer", wl + "7", "T", ["A01", "B01", "C01"], "P", ["A01", "B01", "A02"], [32, 39, 46], {}],
+                ["transfer", wl + "7", "Q", ["B02"], "U", ["A02"], [60.5], {}],
             ]
     # distribute: the source column is charged once per listed destination well (repeats and trough aliases included)
     for wl in ("e", "f"):
@@ -160,7 +164,12 @@ class Harness(cm.BaseA):
         return {"depth": self.depth(tier), "labware_sets": ["WIDE", "TIGHT"]}
 
     def configs(self, tier):
-        wls = {"e": {"cls": "EvoWorklist", "max_volume": 950}, "f": {"cls": "FluentWorklist", "max_volume": 950}}
+        wls = {
+            "e": {"cls": "EvoWorklist", "max_volume": 950},
+            "f": {"cls": "FluentWorklist", "max_volume": 950},
+            "e7": {"cls": "EvoWorklist", "max_volume": 7},
+            "f7": {"cls": "FluentWorklist", "max_volume": 7},
+        }
         return [
             {"set": "WIDE", "labware": WIDE(), "worklists": wls},
             {"set": "TIGHT", "labware": TIGHT(), "worklists": wls},
